@@ -360,4 +360,12 @@ def jobs(tier):
     if not q:
         js.append(Job("split3[V=240,cap=100]", h_split, dict(V=240, cap=100, parts=3), functions=FUNCS, expect_tags=("split",), approx=True, timeout=3000,
                       bounds=dict(voltage=240, capacity=100, parts=3), cost=40))
+    # one battery object charged twice with different period lengths (harness shared with C03): the second call equals the same
+    # call on a fresh battery in that state, i.e. the law has no memory beyond the state of charge
+    from props import C03
+
+    for j in C03.jobs(tier):
+        if j.name.startswith("two_steps["):
+            j.name = "two_calls" + j.name[len("two_steps"):]
+            js.append(j)
     return js
